@@ -45,15 +45,14 @@ def validate_script(g, script, op_lines):
     belief = {script["root"]}
     compared = 0
     for k, s in enumerate(steps):
-        line = op_lines[k]
-        st = line["st"]
+        ov = op_lines[k]              # the compact view of the line (planner.view_of_st)
         lab = s.get("lab")
-        if lab is None or not st.get("conf", {}).get("has"):
+        if lab is None or not ov["gated"]:
             return compared, None, "step %d carries no label/projection" % k
-        skipped = st["last"]["res"] == "skip"
+        skipped = ov["skip"]
         belief0 = belief
         nxt, enabled_somewhere = [], False
-        obs_res = planner.result_of(planner.view_of_st(st))
+        obs_res = planner.result_of(ov)
         for n in belief:
             succ = g["client"].get(n, {}).get(lab)
             if succ:
@@ -67,7 +66,7 @@ def validate_script(g, script, op_lines):
             # the runner took a branch of its own nondeterminism on which the planned step does not exist in the bounded model
             return compared, None, "step %d (%s) not enabled in any candidate state" % (k, s["op"])
         cand = _closure(g, nxt)
-        obs = planner.canon_view(planner.view_of_st(st), False, g.get("with_store", True))
+        obs = planner.canon_view(ov, False, g.get("with_store", True))
         belief = {n for n in cand if planner.view_matches(g["proj"].get(n, ""), obs)}
         compared += 1
         if not belief:
@@ -91,27 +90,14 @@ def op_lines(trace_files, sids):
                     continue
                 r = json.loads(line)
                 if r["sid"] in sids and r["ev"]["k"] in ("Op", "Restart"):
-                    ops[r["sid"]].append(r)
+                    ops[r["sid"]].append(planner.view_of_st(r["st"]))     # only the compared fields are kept
     return ops
 
 
-def validate(work, scripts, trace_files):
-    """Validate all gated scripts found in the trace files. Returns a summary dict."""
+def validate(work, scripts, ops):
+    """Validate all gated edge-cover scripts; ops: op_lines() of the trace files. Returns a summary dict."""
     by_id = {s["id"]: s for s in scripts if s.get("gated") and "root" in s}
     graphs = {}
-    ops = collections.defaultdict(list)
-    for tf in trace_files:
-        try:
-            f = open(tf)
-        except OSError:
-            continue
-        with f:
-            for line in f:
-                if '"k":"Op"' not in line and '"k":"Restart"' not in line:
-                    continue
-                r = json.loads(line)
-                if r["sid"] in by_id and r["ev"]["k"] in ("Op", "Restart"):
-                    ops[r["sid"]].append(r)
     res = {"scripts": 0, "steps_compared": 0, "drift": [], "lost_track": 0, "not_run": 0}
     for sid, sc in by_id.items():
         if sid not in ops:
